@@ -175,12 +175,25 @@ pub fn hex_f64(x: f64) -> String {
 // ------------------------------------------------------------------------------------------
 // Panics as values
 // ------------------------------------------------------------------------------------------
+thread_local! {
+    static GUARD_DEPTH: std::cell::Cell<usize> = std::cell::Cell::new(0);
+}
+/// Panics inside `guard` (the implementation under test) are silent values; a panic OUTSIDE any guard is a
+/// harness bug or an unguarded call into the implementation: it is printed (message and location) so that the
+/// driver's log shows why the harness died.
 pub fn quiet_panics() {
-    panic::set_hook(Box::new(|_| {}));
+    panic::set_hook(Box::new(|info| {
+        if GUARD_DEPTH.with(|d| d.get()) == 0 {
+            eprintln!("HARNESS PANIC (outside guard): {}", info);
+        }
+    }));
 }
 /// Run `f`, turning a panic into `Err(message)`.
 pub fn guard<R, F: FnOnce() -> R>(f: F) -> Result<R, String> {
-    match panic::catch_unwind(AssertUnwindSafe(f)) {
+    GUARD_DEPTH.with(|d| d.set(d.get() + 1));
+    let res = panic::catch_unwind(AssertUnwindSafe(f));
+    GUARD_DEPTH.with(|d| d.set(d.get().saturating_sub(1)));
+    match res {
         Ok(r) => Ok(r),
         Err(e) => {
             if let Some(s) = e.downcast_ref::<&str>() {
